@@ -626,6 +626,7 @@ def gen_case_c15(seed, tier):
             "target": {"inputs": base[0], "output": base[1], "size_dict": base[2], "why": "target"},
             "others": others, "byte_fraction": frac, "byte_seed": sw.randrange(2 ** 31),
             "flush": sw.choice(["through", "buffered"]),
+            "writer_via": sw.choice(["search", "search", "call", "update_from_tree"]),
             "crosscheck": sw.random() < (0.5 if tier == "thorough" else 0.25),
             "only_points": None}
 
@@ -670,8 +671,21 @@ def _writer(ctg, case, directory, crash_at, exit_mode=False, seed_tag="writer"):
         try:
             prng.reseed_globals(prng.H(case["seed"], seed_tag))
             opt = make_optimizer(ctg, cfg, directory)
-            tree = opt.search(*_q_args(case["target"]))
-            res = {"path": tree.get_path(), "sliced": tuple(tree.sliced_inds)}
+            via = case.get("writer_via", "search")
+            args = _q_args(case["target"])
+            if via == "call":
+                path = opt(*args)
+                res = {"path": tuple(tuple(p) for p in path), "sliced": None}
+            elif via == "update_from_tree":
+                # the user stores a tree of their own (e.g. after manual reconfiguration)
+                trng = random.Random(prng.H(case["seed"], "user-tree"))
+                tree = ctg.ContractionTree.from_path(*args, ssa_path=[tuple(p) for p in netgen.random_ssa_path(trng, len(args[0]))],
+                                                     objective="flops" if case["cfg"]["kind"] == "hyper" else None)
+                opt.update_from_tree(tree, overwrite=True)
+                res = {"path": tree.get_path(), "sliced": tuple(tree.sliced_inds)}
+            else:
+                tree = opt.search(*args)
+                res = {"path": tree.get_path(), "sliced": tuple(tree.sliced_inds)}
         except simfs.SimCrash:
             crashed = True
     return fsim, res, crashed
@@ -773,10 +787,11 @@ def run_case_c15(case):
             if case.get("only_points") is not None:
                 points = [tuple(p) for p in case["only_points"]]
             valid_paths = {tuple(map(tuple, new["path"]))}
-            valid_sliced = {tuple(map(tuple, new["path"])): {frozenset(new["sliced"])}}
+            valid_sliced = {tuple(map(tuple, new["path"])): ({frozenset(new["sliced"])} if new["sliced"] is not None else None)}
             if old is not None:
                 valid_paths.add(tuple(map(tuple, old["path"])))
-                valid_sliced.setdefault(tuple(map(tuple, old["path"])), set()).add(frozenset(old["sliced"]))
+                if valid_sliced.get(tuple(map(tuple, old["path"])), set()) is not None:
+                    valid_sliced.setdefault(tuple(map(tuple, old["path"])), set()).add(frozenset(old["sliced"]))
             xcheck_left = 2 if case.get("crosscheck") else 0
             for (k, b) in points:
                 if violations:
@@ -845,7 +860,7 @@ def run_case_c15(case):
                         p = tuple(map(tuple, r["path"]))
                         if r["searched"]:
                             outcome = "searched-again"
-                        elif p in valid_paths and frozenset(r["sliced"]) not in valid_sliced[p]:
+                        elif p in valid_paths and valid_sliced[p] is not None and frozenset(r["sliced"]) not in valid_sliced[p]:
                             V("served-entry-nobody-acknowledged",
                               f"crash point {(k, b)} [{okind}]: later process returned sliced indices {r['sliced']} without searching; acknowledged: {sorted(map(sorted, valid_sliced[p]))}",
                               op=okind)
@@ -898,6 +913,7 @@ def run_case_c15(case):
     counters["crash_points_enumerated"] += enumerated
     counters["scenario:" + scen] += 1
     counters["flush:" + case.get("flush", "through")] += 1
+    counters["writer_via:" + case.get("writer_via", "search")] += 1
     log.add("violations", [(v["oracle"], v["detail"]) for v in violations])
     sample = {"scenario": scen, "kind": kind, "layout_split": case["cfg"]["directory_split"],
               "writer_ops": _anon_ops(ops) if "ops" in dir() else None,
